@@ -51,7 +51,8 @@ func (f *Formatter) Format(content string) (string, error) {
 
 	// Check if this looks like a full document (starts with <!DOCTYPE or <html)
 	trimmedBody := strings.TrimSpace(body)
-	isFullDocument := hasDoctypePrefix(trimmedBody) || strings.HasPrefix(trimmedBody, "<html")
+	// (a closing </html> anywhere is what the template engine itself goes by)
+	isFullDocument := hasDoctypePrefix(trimmedBody) || strings.HasPrefix(trimmedBody, "<html") || strings.Contains(trimmedBody, "</html>")
 
 	if isFullDocument {
 		return f.formatFullDocument(frontmatter, body)
